@@ -44,11 +44,13 @@ static Rec sym_rec(const char* tag) {
 }
 // expectation model: what GetDeps must return per output (-1 mtime = no entry)
 struct Model { long mtime[4]; int mask[4]; Model() { for (int i = 0; i < 4; i++) { mtime[i] = -1; mask[i] = 0; } } void apply(const Rec& r) { mtime[r.out] = r.mtime; mask[r.out] = r.deps_mask; } };
+static bool g_skip_dead = false;   // the entry of the output without a deps statement may or may not have been dropped (a recompaction was cut short)
 static int g_only = -1;      // when >= 0, only this output is compared (the valid-looking foreign record may have changed the others)
 static void check_state(DepsLog* log, State* st, const Model& m, const char* msg) {
   bool ok = true;
   for (int o = 0; o < 4; o++) {
     if (g_only >= 0 && o != g_only) continue;
+    if (g_skip_dead && o == 3) continue;
     Node* n = st->LookupNode(kOuts[o]);
     DepsLog::Deps* d = n ? log->GetDeps(n) : NULL;
     if (m.mtime[o] < 0) { ok = ok && d == NULL; continue; }
@@ -144,6 +146,18 @@ extern "C" int harness_main() {
   }
   keep = -1;
   verif_reach("badrec");
+#elif defined(DAMAGE_RECOMPACT_CRASH)
+  // a session that only recompacts, and dies right after a symbolic persistence event of the recompaction (temporary file, its flushes, the rename)
+  long cut = full; keep = -1; for (size_t i = 0; i < recs.size(); i++) m.apply(recs[i]);
+  {
+    State* st = new_state(); DepsLog log; err.clear();
+    VERIF_ASSERT(log.Load(kLog, st, &err) == LOAD_SUCCESS, "C09: load before recompaction");
+    verif_vfs_die_after(verif_nondet("die_after_event", 0, VERIF_MAX_EVENTS));
+    log.Recompact(kLog, &err);
+    verif_reach(verif_vfs_frozen() ? "recompaction-killed" : "recompaction-completed");
+    verif_vfs_freeze(0);
+    g_skip_dead = true;
+  }
 #else
   long cut = full; keep = full; for (size_t i = 0; i < recs.size(); i++) m.apply(recs[i]);
 #endif
@@ -186,6 +200,7 @@ extern "C" int harness_main() {
     if (recompact_when == 1) {
       VERIF_ASSERT(log.Recompact(kLog, &err), "C09: recompaction succeeds");
       if (g_only < 0 || g_only == 3) m.mtime[3] = -1;        // 'dead' has no statement using deps: dropped; everything else kept
+      if (extra.out != 3) g_skip_dead = false;
       check_state(&log, st, m, "C09: recompaction drops exactly the entries whose output has no statement using deps");
       verif_reach("recompact-2");
     }
@@ -199,7 +214,7 @@ extern "C" int harness_main() {
     check_state(&log, st, m, "C09: deps recorded after recovery (and everything kept before) survive the next load");
     if (recompact_when == 2) {
       VERIF_ASSERT(log.Recompact(kLog, &err), "C09: recompaction succeeds");
-      m.mtime[3] = -1;
+      m.mtime[3] = -1; g_skip_dead = false;
       check_state(&log, st, m, "C09: recompaction drops exactly the entries whose output has no statement using deps");
       log.Close();
       State* st4 = new_state(); DepsLog log4; err.clear();
